@@ -45,6 +45,8 @@ def run(chk):
         _compose.run_lib(lib, chk, "C11")
     _graph.run_family(chk, {"C11", "C10"}, tier="quick")
     msgpack_objects(chk)
+    from props import _state
+    _state.run_length_wrap(chk)
     _compose.finish(chk)
     chk.trusted += ["memory safety of C++ that is not index arithmetic or ownership bookkeeping (iterator invalidation, object lifetime, library internals) is observed only by the sanitizers on the generated histories",
                     "tensor handle ownership is C07's model; MessagePack object ownership is checked in C13/C14's harness runs"]
